@@ -279,6 +279,18 @@ func TestVerif_C14Pipe(t *testing.T) {
 			}
 		}
 		frames := genStream(rng, cam, edge, o)
+		stallAt := -1
+		if stall {
+			// a rejected frame just before: the camera is asked to restart, never does, keeps
+			// streaming and then goes quiet for a while in mid-frame / mid-marker
+			for i := len(frames) / 2; i < len(frames); i++ {
+				if frames[i].Clear == (idx == 31) && !frames[i-1].Clear && !frames[i-1].Bad {
+					stallAt = i
+					frames[i-1].Pix[edge+1][edge+1], frames[i-1].Bad = 0, true
+					break
+				}
+			}
+		}
 		cw := &chunkWriter{rng: rng, mode: rng.PickInt(0, 0, 0, 1, 2)}
 		if cam.ResX > 100 && cw.mode == 1 {
 			cw.mode = 0
@@ -326,7 +338,7 @@ func TestVerif_C14Pipe(t *testing.T) {
 						if !f.Clear {
 							raw = f.raw(cam)
 						}
-						if !stalled && i >= len(frames)/2 && f.Clear == (idx == 31) {
+						if !stalled && i == stallAt {
 							k := 1 + int(idx)%4
 							if _, err := w.Write(raw[:k]); err != nil {
 								return err
